@@ -197,7 +197,7 @@ def build(P, kinds, shape, L=2, hibernation=False, generations=2, maximize=False
     w.lscs = [RecLSC() for _ in kinds]
     for l in w.lscs:
         l.P = P
-    bounds = np.array([[-2.0, 2.0]] * d)
+    bounds = np.array([[-2.0, 2.0], [-1.0, 3.0], [-4.0, 1.0]][:d])  # different range per coordinate
     w.bounds = bounds
     w.problems = [FunctionProblem(w.log.wrap(i), bounds, maximize) for i in range(len(kinds))]
     levels = [level_config(k, w.problems[i], w.lscs[i], generations, pop) for i, k in enumerate(kinds)]
